@@ -1586,7 +1586,7 @@ SERVES = {
     'C01': ('fitGain', 'r2_', 'blk_', 'blockNorm_', 'kernel_'), 'C02': ('fitGain', 'r2_', 'blk_', 'blockNorm_', 'applyParams', 'resamplingIsDown'),
     'C07': ('fitGain', 'r2_', 'blk_', 'blockNorm_', 'applyParams', 'mask_'), 'C14': ('applyParams', 'paramIndex', 'fitGain', 'r2_', 'profile_metaTags', 'paramImage_', 'tags_'),
     'C04': ('prog', 'fanOut', 'accumulate_', 'locks_', 'threads_'), 'C09': ('prog', 'outFilesEvents', 'fanOut'), 'C10': ('outFilesEvents', 'profile_', 'cli_fuseLoop', 'names_'), 'C11': ('cmp_', 'cmpPx_', 'resamplingIsDown', 'accumulate_compare', 'mask_'), 'C12': ('stats_', 'accumulate_stats', 'paramImage_', 'tags_', 'statsWindow_'), 'C17': ('cover_',), 'C20': ('bounded_', 'writeSteps', 'read_', 'convert_', 'mask_'), 'C13': ('convert_', 'writeSteps', 'profile_'), 'C08': ('read_', 'mask_', 'bands_'),
-    'C03': ('writeSteps',), 'C05': ('overlapForKernel', 'blocks_', 'resamplingIsDown', 'fitGain', 'r2_', 'kernel_'),
+    'C03': ('writeSteps', 'expandWindow_'), 'C05': ('overlapForKernel', 'blocks_', 'resamplingIsDown', 'fitGain', 'r2_', 'kernel_'),
     'C06': ('blocks_', 'expandWindow_', 'roundBounds_', 'autoBlock_', 'orient_'), 'C16': ('covers_axis', 'orient_'), 'C18': ('resolveAutoIsRef', 'orient_', 'cli_fuseLoop', 'tags_'), 'C19': ('cli_', 'names_', 'threads_', 'kernel_'), 'C15': ('match_', 'bands_', 'bandInfo_'),
 }
 # theorems outside Props/Cxx.lean audited with a property's proof leg: (module, theorem name prefix) - the source-text tie
@@ -1596,7 +1596,7 @@ TIE = {
     'C02': [('SrcTieKernel', 'src_C01_'), ('SrcTieKernel', 'src_C14_apply'), ('SrcTieKernel', 'src_C02_'), ('E2E', 'block_transparent'),
             ('E2ELine', 'whole_image_gain_recovers'), ('E2ELine', 'whole_image_gain_offset_recovers'),
             ('E2EWide', 'whole_image_gain_'), ('E2EWide', 'cubic_weights_sum_one'), ('E2EWide', 'bspline_weights_')],
-    'C03': [('E2E', 'block_transparent'), ('E2EMask', 'whole_image_'), ('E2EMask', 'block_mask_eq_whole'),
+    'C03': [('SrcTieGeom', 'src_C06_expand'), ('E2E', 'block_transparent'), ('E2EMask', 'whole_image_'), ('E2EMask', 'block_mask_eq_whole'),
             ('E2EWide', 'wide_valid_iff_nearest'), ('E2EWide', 'wide_mask_eq_nearest'), ('E2EWide', 'whole_image_no_lost_pixels_wide'),
             ('E2EWide', 'block_mask_eq_whole_wide')],
     'C15': [('SrcTieCli', 'src_C15_'), ('BandInfo', 'bandInfo_'), ('SrcTieStats', 'src_C15_')],
